@@ -229,7 +229,7 @@ func vfC05Transfer(sess *vfSession, a vfC05Act, src, base string) string {
 			return ""
 		}
 		dest = filepath.Join(base, "missing-download-dir")
-	case "failed", "stopped", "stopped_ui":
+	case "failed", "stopped", "stopped_ui", "sigint":
 		paths = []string{filepath.Join(src, "big.bin")}
 		cfg.Bufsize = 1024
 	}
@@ -268,6 +268,14 @@ func vfC05Transfer(sess *vfSession, a vfC05Act, src, base string) string {
 		}
 		time.Sleep(30 * time.Millisecond)
 		sess.filter.StopTransferringFiles(false)
+	case "sigint":
+		// the failure is on the server side and the server says so itself (a fail line in its own spelling)
+		deadline := time.Now().Add(5 * time.Second)
+		for !sess.filter.IsTransferringFiles() && time.Now().Before(deadline) {
+			time.Sleep(time.Millisecond)
+		}
+		time.Sleep(60 * time.Millisecond)
+		sess.signalServer(syscall.SIGINT)
 	case "stopped_ui":
 		// the user's way: Ctrl-C, the stop question (shown in quiet mode too), Ctrl-C again for a plain stop
 		deadline := time.Now().Add(5 * time.Second)
@@ -378,7 +386,7 @@ func vfGenC05(rt *rapid.T) vfC05Case {
 		switch {
 		case withTransfers && k == 0:
 			a.Kind = "transfer"
-			a.Outcome = rapid.SampledFrom([]string{"succeeded", "refused", "failed", "stopped", "stopped_ui", "forked"}).Draw(rt, "outcome")
+			a.Outcome = rapid.SampledFrom([]string{"succeeded", "refused", "failed", "stopped", "stopped_ui", "sigint", "forked"}).Draw(rt, "outcome")
 			a.Upload = rapid.Bool().Draw(rt, "upload")
 		case cs.Sess.Drag && k == 1 && rapid.IntRange(0, 2).Draw(rt, "dragback") == 0:
 			a.Kind = "dragback"
@@ -409,7 +417,7 @@ func vfGenC05(rt *rapid.T) vfC05Case {
 			}
 		}
 		if !has {
-			cs.Acts = append([]vfC05Act{{Kind: "transfer", Outcome: rapid.SampledFrom([]string{"succeeded", "refused", "failed", "stopped", "stopped_ui", "forked"}).Draw(rt, "outcome2"),
+			cs.Acts = append([]vfC05Act{{Kind: "transfer", Outcome: rapid.SampledFrom([]string{"succeeded", "refused", "failed", "stopped", "stopped_ui", "sigint", "forked"}).Draw(rt, "outcome2"),
 				Upload: rapid.Bool().Draw(rt, "upload2")}}, cs.Acts...)
 		}
 	}
